@@ -141,10 +141,17 @@ Section Mean.
   Theorem mean_identity mid mass xs o md rep fv a :
     (o + 1 < length xs)%nat -> (rep = 1 \/ rep = 2 \/ rep = 3 \/ rep = 4)%Z -> valid_rep fv rep ->
     process_drift m1t pinf err md rep fv a (compute_mu_h mid mass xs o) + mean_of_rates mid mass xs o
-    == md + mean_rate m1t pinf rep fv a.
+    == md + mean_rate m1t pinf rep fv a
+    /\ (rep = 1%Z -> mean_rate m1t pinf rep fv a == a + m1 l r) /\ (rep = 2%Z -> mean_rate m1t pinf rep fv a == a)
+    /\ (rep = 4%Z -> fv = true -> mean_rate m1t pinf rep fv a == a + m1 l r)
+    /\ m1t (- pinf) pinf == m1 l r.
   Proof.
-    intros Ho Hr Hv. unfold process_drift. rewrite (mu_h_is_sum mid mass xs o Ho).
-    pose proof (mean_identity_core rep fv a Hr Hv). lra.
+    intros Ho Hr Hv. destruct (mean_rate_explicit fv a) as (E1 & E2 & E4 & _). split; [|split; [|split; [|split]]].
+    - unfold process_drift. rewrite (mu_h_is_sum mid mass xs o Ho). pose proof (mean_identity_core rep fv a Hr Hv). lra.
+    - intros ->. exact E1.
+    - intros ->. exact E2.
+    - intros -> ->. exact E4.
+    - apply m1t_all.
   Qed.
 End Mean.
 
@@ -172,20 +179,30 @@ End MeanInfiniteVariation.
 
 (* every margin of the (repaired) copula chain satisfies the mean identity with its OWN flag, representation and axis *)
 Definition cm_ok (m : cmargin) : Prop :=
-  (forall a b c, a <= b -> b <= c -> cm_m1 m a c == cm_m1 m a b + cm_m1 m b c)
-  /\ (forall a a' b b', a == a' -> b == b' -> cm_m1 m a b == cm_m1 m a' b')
-  /\ cm_l m <= cm_r m /\ 1 <= cm_pinf m
-  /\ (cm_o m + 1 < length (cm_xs m))%nat /\ (cm_rep m = 1 \/ cm_rep m = 2 \/ cm_rep m = 3 \/ cm_rep m = 4)%Z
-  /\ (cm_fv m = true \/ cm_rep m <> 1%Z).
+  (* a margin of finite variation: int x nu is additive on all intervals; a margin of infinite variation: NO hypothesis on
+     the first-moment integral, but its representation must be compensated (CENTER / ONEONE / TILDE) *)
+  (cm_fv m = true -> (forall a b c, a <= b -> b <= c -> cm_m1 m a c == cm_m1 m a b + cm_m1 m b c)
+                     /\ (forall a a' b b', a == a' -> b == b' -> cm_m1 m a b == cm_m1 m a' b'))
+  /\ (cm_fv m = false -> cm_rep m <> 1%Z)
+  (* the truncation bounds are the end points of the margin's own axis, np.inf lies beyond them *)
+  /\ cm_l m = headq (cm_xs m) /\ cm_r m = lastq (cm_xs m) /\ cm_l m <= cm_r m
+  /\ 1 <= cm_pinf m /\ - cm_pinf m <= cm_l m /\ cm_r m <= cm_pinf m
+  /\ (cm_o m + 1 < length (cm_xs m))%nat /\ (cm_rep m = 1 \/ cm_rep m = 2 \/ cm_rep m = 3 \/ cm_rep m = 4)%Z.
 Theorem copula_margins_mean mid ms : Forall cm_ok ms ->
   Forall (fun m => cm_drift mid m + mean_of_rates mid (cm_mass m) (cm_xs m) (cm_o m)
-                   == cm_md m + mean_rate (cm_m1t m) (cm_pinf m) (cm_rep m) (cm_fv m) (cm_a m)) ms.
+                   == cm_md m + mean_rate (cm_m1t m) (cm_pinf m) (cm_rep m) (cm_fv m) (cm_a m)
+                   /\ (cm_fv m = true -> cm_m1t m (- cm_pinf m) (cm_pinf m) == cm_m1 m (headq (cm_xs m)) (lastq (cm_xs m)))) ms.
 Proof.
-  intros H. apply Forall_impl with (2 := H). intros m (A & P & LR & P1 & Ho & Hr & Hv).
-  unfold cm_drift, process_drift_v, cm_m1t.
-  pose proof (mean_identity (cm_m1 m) A P (cm_l m) (cm_r m) (cm_pinf m) (cm_err m) LR P1 mid (cm_mass m) (cm_xs m) (cm_o m) (cm_md m)
-                (cm_rep m) (cm_fv m) (cm_a m) Ho Hr Hv) as E.
-  unfold process_drift in E. exact E.
+  intros H. apply Forall_impl with (2 := H). intros m (Afv & Aiv & EL & ER & LR & P1 & PL & PR & Ho & Hr).
+  unfold cm_drift, process_drift_v, cm_m1t. destruct (cm_fv m) eqn:F.
+  - destruct (Afv eq_refl) as (A & P).
+    destruct (mean_identity (cm_m1 m) A P (cm_l m) (cm_r m) (cm_pinf m) (cm_err m) LR P1 PL PR mid (cm_mass m) (cm_xs m) (cm_o m)
+                (cm_md m) (cm_rep m) true (cm_a m) Ho Hr (or_introl eq_refl)) as (E & _ & _ & _ & EA).
+    unfold process_drift in E. split; [exact E|]. intros _. rewrite <- EL, <- ER. exact EA.
+  - assert (Hr3 : (cm_rep m = 2 \/ cm_rep m = 3 \/ cm_rep m = 4)%Z) by (specialize (Aiv eq_refl); destruct Hr as [E|R]; [contradiction|exact R]).
+    pose proof (mean_identity_iv (tmass (cm_m1 m) (cm_l m) (cm_r m)) (cm_pinf m) (cm_err m) mid (cm_mass m) (cm_xs m) (cm_o m)
+                  (cm_md m) (cm_rep m) (cm_a m) Ho Hr3) as E.
+    unfold process_drift in E. split; [exact E|]. intros D; discriminate D.
 Qed.
 
 Section Variance.
